@@ -18,7 +18,8 @@ RULE = ("(a) exhaustive: every byte 0..255 as a one-character input (as str wher
         "interleaved with encodes of a few recurring plain strings whose returned arrays the caller then assigns into, "
         "so that what an earlier call leaves behind cannot change a later call; (e) Python lists of 1..5 rows that are already encoded, each row with "
         "an alphabet of a small group (same letters in another order, or one extending another; or the offset encodings for qualities, digits and CIGAR lengths), "
-        "handed to as_encoded_array with and without a target, or wrapped again with EncodedArray(row, target). "
+        "handed to as_encoded_array with and without a target, or wrapped again with EncodedArray(row, target); "
+        "(f) every short k-mer over alphabets of 2, 3, 4, 5, 9 and 21 letters encoded as one code (KmerEncoding) and read back as text. "
         "Oracle: a Python model of each alphabet (a character is accepted iff its upper-case form, for letters only, is a member). Accepted "
         "input decodes to the upper-cased original row for row with the ragged shape unchanged; rejected input raises EncodingError; "
         "re-targeting yields data whose text equals the source text or raises. "
@@ -30,7 +31,7 @@ ASSUMPTIONS = [
 REQUIRED_CLASSES = ["byte-exhaustive", "foreign-char", "mixed-case", "ragged-with-empty-row", "pair-retarget", "pair-change_encoding",
                     "view-input", "string-encoding", "retarget-history", "history-prefix-then-beyond", "history-encode-edit-encode-again", "foreign-char-beyond-one-byte",
                     "list-of-rows-in-several-encodings", "list-of-rows-same-letters-other-order", "list-of-rows-in-one-encoding",
-                    "rows-in-offset-encodings"]
+                    "rows-in-offset-encodings", "kmer-of-fewer-than-four-letters", "kmer-of-four-letters", "kmer-of-more-than-four-letters"]
 BOUNDS = {"quick": "(a) complete: 256 bytes x 10 encodings x 2 routes; (b) 1500 strings per alphabet; (c) all 90 ordered pairs x 150 strings; (d) 6000 histories; (e) 1500 row lists",
           "thorough": "(a) complete; (b) 15000 per alphabet; (c) all pairs x 1500 strings; (d) 240000 histories; (e) 15000 row lists"}
 BUDGET_S = {"quick": 150, "thorough": 900}
@@ -122,6 +123,9 @@ def classify(case):
         if case["rows"][0]["alpha"].startswith("num:"):
             cl.append("rows-in-offset-encodings")
             nontrivial = nontrivial or bool(case.get("target") and case["target"] != case["rows"][0]["alpha"])
+    elif kind == "kmer":
+        cl.append("kmer-of-" + ("fewer-than-four" if len(letters_of(case["alpha"])) < 4 else ("four" if len(letters_of(case["alpha"])) == 4 else "more-than-four")) + "-letters")
+        nontrivial = len(set(case["text"])) >= 2
     elif kind == "labels":
         cl.append("string-encoding")
         nontrivial = any(x not in case["labels"] for x in case["query"])
@@ -296,6 +300,20 @@ def check(case, stats=None):
         if got != want:
             return [Failure("C06:list-of-encoded-rows-changes-text", {"rows": case["rows"], "target": case.get("target"), "result_text": got})]
         return []
+    if kind == "kmer":
+        # one k-mer of an alphabet encoded as a single code and read back as text
+        from bionumpy.encodings.kmer_encodings import KmerEncoding
+        from bionumpy.encoded_array import as_encoded_array
+        text, k = case["text"], len(case["text"])
+        ke = KmerEncoding(enc_of(case["alpha"]), k)
+        try:
+            got = as_encoded_array(text, ke).to_string()
+            got2 = ke.to_string(int(np.asarray(ke.encode(text).raw())))
+        except Exception as e:
+            return [Failure(f"C06:kmer-read-back-raised:{type(e).__name__}", {"alpha": case["alpha"], "text": text, "error": repr(e)[:200]})]
+        if got != text.upper() or got2 != text.upper():
+            return [Failure("C06:kmer-reads-back-as-other-text", {"alpha": case["alpha"], "text": text, "read_back": got, "to_string_of_code": got2})]
+        return []
     if kind == "labels":
         from bionumpy.encodings.string_encodings import StringEncoding
         labels, query = case["labels"], case["query"]
@@ -465,6 +483,24 @@ def task_history(stats, known_open, n, seed):
     core.run_hypothesis(sys.modules[__name__], history_case(), stats, known_open, max_examples=n, seed=seed)
 
 
+KMER_ALPHABETS = ["Strand", "custom:AB", "custom:XYZ", "ACGT", "ACTG", "ACGTn", "AminoAcid", "CigarOp"]
+
+
+def task_kmers(stats, known_open):
+    """Every k-mer with k <= 3 (k <= 2 for the large alphabets) over each alphabet, and every k-mer of k = 4..6 over the alphabets of up to 3 letters."""
+    import sys
+
+    def cases():
+        for a in KMER_ALPHABETS:
+            letters = letters_of(a)
+            for k in range(1, 7):
+                if len(letters) ** k > 800:
+                    break
+                for t in itertools.product(letters, repeat=k):
+                    yield {"kind": "kmer", "alpha": a, "text": "".join(t)}
+    core.run_enumeration(sys.modules[__name__], cases(), stats, known_open, name="k-mers-read-back")
+
+
 def task_rowlist(stats, known_open, n, seed):
     import sys
     core.run_hypothesis(sys.modules[__name__], rowlist_case(), stats, known_open, max_examples=n, seed=seed)
@@ -477,7 +513,7 @@ def task_labels(stats, known_open, n, seed):
 
 def tasks(tier, seed):
     n_enc, n_pair = (1500, 150) if tier == "quick" else (15000, 1500)
-    out = [("task_bytes", {})]
+    out = [("task_bytes", {}), ("task_kmers", {})]
     for i, a in enumerate(ALPHABETS):
         out.append(("task_encode", dict(alpha=a, n=n_enc, seed=seed * 1000 + i)))
         out.append(("task_pairs", dict(src=a, n=n_pair, seed=seed * 1000 + 100 + i)))
